@@ -220,6 +220,10 @@ func modelCanon(ans string) string {
 // progCompareLog makes runProgCases also compare the loaders' Get log with the model's.
 var progCompareLog bool
 
+// progSkipModel, when set, exempts cases from the model comparison (constructs the
+// model does not know, e.g. a filter registered after the model was written).
+var progSkipModel func(ProgCase) bool
+
 // modelLog extracts the model's fetch log as "loader:name,…" with decoded names.
 func modelLog(ans string) (string, bool) {
 	i := strings.Index(ans, "log=")
@@ -306,6 +310,10 @@ func runProgCases(cfg Config, res *Result, cases []ProgCase, sigPrefix string, n
 			if f := oracle(c, io); f != nil {
 				res.add(*f)
 			}
+		}
+		if progSkipModel != nil && progSkipModel(c) {
+			res.hist("model:skipped")
+			continue
 		}
 		m := modelCanon(model[i])
 		if m == "unsupported" {
